@@ -54,6 +54,8 @@ def judge(specs, links, order, link_order, cache=True):
                         continue
                     if not all(x in times for x in need):
                         bad.append(("initial_publication_times", f"{n}.{o} published at {times}, needed {need}"))
+    for x in cnode.World.early[:1]:
+        bad.append(("connected_while_consumer_exchange_outstanding", f"{x[0]} reported CONNECTED although {x[2]}.{x[3]} had not exchanged its metadata with {x[0]}.{x[1]}"))
     # per-call status rule (every connect call of every component)
     ncalls = 0
     for n, c in comps.items():
@@ -81,9 +83,92 @@ def run_helper(case):
     return res
 
 
+def run_masked_start(case):
+    """a producer that starts later than the composition publishes its initial data twice: both publications must be the producer's
+    initial value - for masked payloads including the mask"""
+    from core.common import compose
+
+    start, form = case["start"], case["form"]
+    grid = fm.UniformGrid((3, 4))
+    mask = np.array([[False, True, False], [False, False, True]])
+    base = np.arange(6.0).reshape(2, 3) + 1.0
+    init = {"masked": np.ma.array(base, mask=mask, fill_value=-9999.0), "plain": base, "quantity_masked": fm.UNITS.Quantity(np.ma.array(base, mask=mask), "m")}[form]
+
+    class P(fm.TimeComponent):
+        def __init__(self):
+            super().__init__()
+            self._time = T0 + H(start)
+
+        def _next_time(self):
+            return self.time + H(1)
+
+        def _initialize(self):
+            self.outputs.add(name="o", time=self.time, grid=grid, units="m")
+            self.create_connector()
+
+        def _connect(self, st):
+            self.try_connect(st, push_data={"o": init})
+
+        def _validate(self):
+            pass
+
+        def _update(self):
+            self._time += H(1)
+
+        def _finalize(self):
+            pass
+
+    class Cn(fm.TimeComponent):
+        def __init__(self):
+            super().__init__()
+            self._time = T0
+
+        def _next_time(self):
+            return self.time + H(1)
+
+        def _initialize(self):
+            self.inputs.add(name="i", time=self.time, grid=None, units=None)
+            self.create_connector(pull_data=["i"])
+
+        def _connect(self, st):
+            self.try_connect(st)
+
+        def _validate(self):
+            pass
+
+        def _update(self):
+            self._time += H(1)
+
+        def _finalize(self):
+            pass
+
+    p, c = P(), Cn()
+    comp = compose([p, c] if case["order"] == "PC" else [c, p])
+    p.outputs["o"] >> c.inputs["i"]
+    res = dict(n=1, states=2, transitions=1, traces=1, nontrivial=1 if start else 0, counters={"masked_start": 1}, violations=[])
+    try:
+        comp.connect()
+    except Exception as e:  # noqa
+        res["violations"].append(viol(dict(kind="connect", clause="unexpected_exception", error=type(e).__name__), f"masked initial data, start offset {start}: {type(e).__name__}: {e}", case))
+        return res
+    times = [float(hrs(t)) for t, _ in p.outputs["o"].data]
+    if sorted(times) != sorted({0.0, float(start)}):
+        res["violations"].append(viol(dict(kind="connect", clause="initial_publication_times", error=None), f"published at {times}", case))
+    for t, d in p.outputs["o"].data:
+        m = d.magnitude
+        want_masked = form != "plain"
+        ok = np.allclose(np.ma.getdata(m)[0][~mask], base[~mask]) and (not want_masked or (np.ma.isMaskedArray(m) and np.array_equal(np.ma.getmaskarray(m)[0], mask)))
+        if not ok:
+            res["violations"].append(viol(dict(kind="connect", clause="initial_publication_is_not_the_initial_value", error=None), f"publication for {float(hrs(t))} h: {type(m).__name__} mask={np.ma.getmaskarray(m).tolist()}", case))
+    res["sample"] = dict(case)
+    return res
+
+
 def run_case(case):
     if case.get("kind") == "helper":
         return run_helper(case)
+    if case.get("kind") == "masked_start":
+        return run_masked_start(case)
     res = dict(n=0, states=0, transitions=0, traces=0, nontrivial=0, counters={}, violations=[])
     cnt = res["counters"]
     for specs, links in case["shapes"]:
@@ -255,6 +340,10 @@ def run(tier, seed, agg):
         names = [x[0] for x in sh[0]]
         for order in (names, names[::-1], names[3:] + names[:3]):
             cases.append(dict(shapes=[sh], order=order, link_order=list(range(len(sh[1])))))
+    for start in (0, 1, 2):
+        for form in ("masked", "plain", "quantity_masked"):
+            for order in ("PC", "CP"):
+                cases.append(dict(kind="masked_start", start=start, form=form, order=order))
     # helper layer: one component, scripted peers, all sequences of connect calls / stepwise provided items / peer events
     for n_in in (0, 1, 2):
         for n_out in (0, 1, 2):
